@@ -365,7 +365,7 @@ def http_loopback_problems(rng, R):
         try:
             cls_big = [c_ for _, _, c_, f_ in message_type_classes() if len(f_) >= 1][0]
             f_big = [f_ for _, _, c_, f_ in message_type_classes() if c_ is cls_big][0]
-            msgs.append(cls_big(**{f: ([float(i % 997) + 0.5 for i in range(260000)] if j == 0 else 1) for j, f in enumerate(f_big)}))
+            msgs.append(cls_big(**{f: ([float(i % 997) + 0.5 for i in range(170000)] if j == 0 else 1) for j, f in enumerate(f_big)}))
         except Exception:
             pass
         sent = []
@@ -382,7 +382,13 @@ def http_loopback_problems(rng, R):
             try:
                 A._messaging.post_msg("src", "sink", m, prio)
             except Exception as e:
-                problems.append(("http:send-exception:%s:%s" % (type(m).__name__, type(e).__name__), "%r: %s" % (m, str(e)[:200])))
+                if "Timeout" in type(e).__name__:
+                    # the layer's 0.5 s wall-clock limit on a POST fired (loaded machine, large message): not a verdict; the
+                    # message may still arrive, it is taken out of the queue so that the next comparisons stay aligned
+                    R.count("http_posts_that_hit_the_0.5s_wall_clock_limit")
+                    B._messaging.next_msg(5.0)
+                    continue
+                problems.append(("http:send-exception:%s:%s" % (type(m).__name__, type(e).__name__), "%r: %s" % (str(m)[:300], str(e)[:200])))
                 continue
             full, _ = B._messaging.next_msg(2.0)
             R.count("http_messages_sent")
